@@ -46,6 +46,7 @@ type Case struct {
 	ScriptCoq string `json:"script_coq,omitempty"`
 	ScriptML  string `json:"script_ml,omitempty"`
 	Metric    bool   `json:"metric,omitempty"`
+	Facts     *Facts `json:"facts,omitempty"` // what the parsed script names (for the spec oracles of checks/c08.py)
 	CtxML   string   `json:"ctx_ml,omitempty"`
 	SQL     []string `json:"sql,omitempty"` // one per run
 	Err     string   `json:"err,omitempty"` // parse | ast | plan | process | string
@@ -261,6 +262,7 @@ func run(c *Case) {
 			}
 			c.ScriptCoq = dumpScript(coqx.Coq, script)
 			c.ScriptML = dumpScript(coqx.ML, script)
+			c.Facts = scriptFacts(script)
 			return
 		}
 		c.AstCoq = dumpStrSel(coqx.Coq, script.StrSelector)
